@@ -3,6 +3,8 @@ import XdistModel.Pure.Options
 import XdistModel.Pure.Looponfail
 import XdistModel.Ctl.DSession
 import XdistModel.Pure.SplitScope
+import XdistModel.Pure.Warnings
+import XdistModel.Pure.Remote
 /-
   Line protocol front end for the pure / near-pure functions (one line in, one line out).
 -/
@@ -116,6 +118,45 @@ def handle (st : St) (line : String) : St × String :=
       else SplitScope.scopeKeyS (unesc nid)
     (st, esc k)
   | ["tag", nid, g] => (st, esc (unesc nid ++ "@" ++ unesc g))
+  | ["warn", kind, m, c, text, ad, catm, catc, impMsg, rebuild, impCat] =>
+    -- kind: str | inst ; rebuild: ok | type | other ; catm "-" = no category
+    match parseBool ad, parseBool impMsg, parseBool impCat with
+    | some ad, some impMsg, some impCat =>
+      let m := unesc m; let c := unesc c; let catm' := unesc catm; let catc' := unesc catc
+      let rb : Warnings.Rebuild := if rebuild = "ok" then .ok else if rebuild = "type" then .typeError else .otherError
+      let caps : Warnings.Caps :=
+        { importable := fun a b => if a = "builtins" && b = "Warning" then true
+                                    else if a = m && b = c && kind = "inst" then impMsg else if a = catm' && b = catc' then impCat else false
+          rebuild := fun _ _ => rb }
+      let w : Warnings.Warning :=
+        { payload := if kind = "inst" then .inst m c (unesc text) ad else .str (unesc text)
+          category := if catm = "-" then none else some (catm', catc')
+          details := [] }
+      match Warnings.receive caps (Warnings.serialize w) with
+      | .error e => (st, e.name)
+      | .ok o =>
+        let msg := match o.message with
+          | .str t => s!"str:{esc t}" | .rebuilt a b => s!"rebuilt:{esc a}.{esc b}" | .generic t => s!"generic:{esc t}"
+        let cat := match o.category with | none => "-" | some (a, b) => s!"{esc a}.{esc b}"
+        (st, s!"ok {msg} cat={cat}")
+    | _, _, _ => (st, "bad-op")
+  | ["reltoroot", ex, roots, pathStr, rest] =>
+    match parseBool ex with
+    | none => (st, "bad-op")
+    | some ex =>
+      let comps := fun (x : String) => (x.splitOn "/").filter (fun c => !c.isEmpty && c != ".")
+      let ps := unesc pathStr
+      match Remote.rewriteArg ex ((parseStrList roots).map comps) ps (comps ps) (unesc rest) with
+      | .ok r => (st, s!"ok {esc r}")
+      | .error e => (st, e.name)
+  | ["rfilter", ignores, name, full] =>
+    (st, showBool (Remote.filter ((parseStrList ignores).map String.toList) (unesc name).toList (unesc full).toList))
+  | ["ignores", cmdline, ini] =>
+    (st, showStrList ((Remote.ignoresOf ((parseStrList cmdline).map String.toList) ((parseStrList ini).map String.toList)).map String.ofList))
+  | ["rsyncdirs", specs, cands] =>
+    let sp := (parseStrList specs).map fun x => ({ popen := x.startsWith "p", chdir := x.endsWith "1" } : Remote.Spec)
+    let cs := (parseStrList cands).map fun x => (x.splitOn "/").filter (fun c => !c.isEmpty)
+    (st, showStrList ((Remote.rsyncDirs sp cs).map fun p => "/" ++ "/".intercalate p))
   | ["tx", l] =>
     match Options.expand ((parseStrList l).map String.toList) with
     | .ok r => (st, s!"ok {showStrList (r.map String.ofList)}")
